@@ -69,6 +69,7 @@ MapFn(f, x) ==
       [] f = "join_sum" -> <<x[1], x[2][1] + x[2][2]>>       \* (k,(a,b)) -> (k, a+b)
       [] f = "join_right" -> x[2][2]                          \* (k,(a,b)) -> b
       [] f = "mul10" -> 10 * x
+      [] f \in {"to_max", "from_max", "kv_to_max", "kv_to_min"} -> x     \* lattice wrappers: Max / Min of naturals
 
 PredFn(f, x) ==
     CASE f = "is_even" -> x % 2 = 0
@@ -175,8 +176,11 @@ InitSt(nd) ==
     CASE nd.op \in {"fold", "fold_no_replay"} -> AccInit(nd.fn)
       [] nd.op \in {"reduce", "reduce_no_replay", "reduce_no_replay_pushbug"} -> NONE
       [] nd.op \in {"fold_keyed", "reduce_keyed"} -> <<>>
-      [] nd.op \in {"join", "join_multiset", "cross_join", "cross_join_multiset", "zip"} -> <<<<>>, <<>>>>
+      [] nd.op \in {"join", "join_multiset", "cross_join", "cross_join_multiset", "zip", "join_fused",
+                    "join_fused_lhs", "join_fused_rhs", "join_multiset_half"} -> <<<<>>, <<>>>>
       [] nd.op \in {"anti_join", "difference"} -> <<<<>>, {}>>       \* <<pos vector, neg set>>
+      [] nd.op \in {"state", "lattice_fold_batch"} -> 0              \* Max lattice over naturals: bottom 0
+      [] nd.op = "state_by" -> {}
       [] nd.op = "unique" -> {}
       [] nd.op = "persist" -> <<>>
       [] nd.op = "multiset_delta" -> <<>>
@@ -195,8 +199,11 @@ TickEnd(nd, s) ==
     CASE nd.op \in {"fold", "fold_no_replay"} -> IF IsTick(nd, 1) THEN AccInit(nd.fn) ELSE s
       [] nd.op \in {"reduce", "reduce_no_replay", "reduce_no_replay_pushbug"} -> IF IsTick(nd, 1) THEN NONE ELSE s
       [] nd.op \in {"fold_keyed", "reduce_keyed"} -> IF IsTick(nd, 1) THEN <<>> ELSE s
-      [] nd.op \in {"join", "join_multiset", "cross_join", "cross_join_multiset", "zip"} ->
+      [] nd.op \in {"join", "join_multiset", "cross_join", "cross_join_multiset", "zip", "join_fused",
+                    "join_fused_lhs", "join_fused_rhs", "join_multiset_half"} ->
             <<IF IsTick(nd, 1) THEN <<>> ELSE s[1], IF IsTick(nd, 2) THEN <<>> ELSE s[2]>>
+      [] nd.op = "state" -> IF IsTick(nd, 1) THEN 0 ELSE s
+      [] nd.op = "state_by" -> IF IsTick(nd, 1) THEN {} ELSE s
       [] nd.op \in {"anti_join", "difference"} ->
             <<IF IsTick(nd, 1) THEN <<>> ELSE s[1], IF IsTick(nd, 2) THEN {} ELSE s[2]>>
       [] nd.op = "unique" -> IF IsTick(nd, 1) THEN {} ELSE s
@@ -238,6 +245,27 @@ RefMapRun(f, s, cell, out) ==
     IF s = <<>> THEN <<out, cell>>
     ELSE LET r == RefMapFn(f, Head(s), cell) IN RefMapRun(f, Tail(s), r[2], Append(out, r[1]))
 
+\* state::<Max>: items that strictly raise the maximum pass; result <<new max, passed items>>
+RECURSIVE StateMaxRun(_, _, _)
+StateMaxRun(m, s, out) ==
+    IF s = <<>> THEN <<m, out>>
+    ELSE IF Head(s) > m THEN StateMaxRun(Head(s), Tail(s), Append(out, Head(s)))
+         ELSE StateMaxRun(m, Tail(s), out)
+
+RECURSIVE SetToSeqP(_)
+SetToSeqP(S) == IF S = {} THEN <<>> ELSE LET x == CHOOSE y \in S : TRUE IN <<x>> \o SetToSeqP(S \ {x})
+
+RECURSIVE SetSorted(_)
+SetSorted(S) == IF S = {} THEN <<>>
+                ELSE LET m == CHOOSE x \in S : \A y \in S : x <= y IN <<m>> \o SetSorted(S \ {m})
+
+\* join_fused accumulators, selected by nd.k: 1 = (Reduce max, Fold sum), 2 = (Min lattice, Max lattice)
+FusedTbl(k, side, t, items) ==
+    CASE k = 1 /\ side = 1 -> KeyedRun(FALSE, "max", t, items)
+      [] k = 1 /\ side = 2 -> KeyedRun(TRUE, "sum", t, items)
+      [] k = 2 /\ side = 1 -> KeyedRun(FALSE, "min", t, items)
+      [] k = 2 /\ side = 2 -> KeyedRun(FALSE, "max", t, items)
+
 Res(o, s) == [o |-> o, s |-> s, c |-> <<>>]
 ResC(o, s, c) == [o |-> o, s |-> s, c |-> c]
 
@@ -246,7 +274,8 @@ Step(nd, ins, s, tick, ext, cells) ==
     CASE op = "source_stream" -> Res(<<ext[nd.k]>>, s)
       [] op = "source_iter" -> Res(<<IF s THEN <<>> ELSE nd.items>>, TRUE)
       [] op \in {"identity", "tee", "inspect", "batch", "batch_lazy", "all_iterations",
-                 "handoff", "singleton", "optional", "sink"} -> Res(<<ins[1]>>, s)
+                 "handoff", "singleton", "optional", "sink", "resolve_futures", "resolve_futures_ordered",
+                 "resolve_futures_blocking", "resolve_futures_blocking_ordered"} -> Res(<<ins[1]>>, s)
       [] op = "null" -> Res(<<<<>>>>, s)
       [] op = "map" -> Res(<<SeqMap(LAMBDA x : MapFn(nd.fn, x), ins[1])>>, s)
       [] op = "filter" -> Res(<<SelectSeq(ins[1], LAMBDA x : PredFn(nd.fn, x))>>, s)
@@ -322,7 +351,40 @@ Step(nd, ins, s, tick, ext, cells) ==
       [] op = "defer_signal" ->      \* ins[1] = input, ins[2] = signal
             LET b == s \o ins[1]
             IN IF ins[2] # <<>> THEN Res(<<b>>, <<>>) ELSE Res(<<<<>>>>, b)
-      [] op = "partition" ->         \* fn: predicate; port 1 = true, port 2 = false
+      [] op = "state" ->             \* port 1 = [items], port 2 = [state] (emitted once every tick)
+            LET r == StateMaxRun(s, ins[1], <<>>) IN Res(<<r[2], <<r[1]>>>>, r[1])
+      [] op = "state_by" ->          \* set-union lattice
+            LET r == UniqueRun(s, ins[1], <<>>) IN Res(<<r[2], <<SetSorted(r[1])>>>>, r[1])
+      [] op = "zip_longest" ->       \* <<0,<<a,b>>>> both, <<1,<<a,-1>>>> left only, <<2,<<-1,b>>>> right only
+            LET l == ins[1]  r == ins[2]  n == Max2(Len(l), Len(r))
+            IN Res(<<[i \in 1..n |->
+                        IF i <= Len(l) /\ i <= Len(r) THEN <<0, <<l[i], r[i]>>>>
+                        ELSE IF i <= Len(l) THEN <<1, <<l[i], 0 - 1>>>> ELSE <<2, <<0 - 1, r[i]>>>>]>>, s)
+      [] op = "join_fused" ->        \* both sides folded per key, then joined; re-emitted every tick
+            LET l == FusedTbl(nd.k, 1, s[1], ins[1])
+                r == FusedTbl(nd.k, 2, s[2], ins[2])
+                m == SelectSeq(r, LAMBDA e : TblHas(l, e[1]))
+            IN Res(<<[i \in 1..Len(m) |-> <<m[i][1], <<TblGet(l, m[i][1]), m[i][2]>>>>]>>, <<l, r>>)
+      [] op = "join_fused_lhs" ->    \* port 1 reduced per key, port 2 a multiset (vector when 'static)
+            LET l == KeyedRun(FALSE, nd.fn, s[1], ins[1])
+                r == s[2] \o ins[2]
+                m == SelectSeq(r, LAMBDA e : TblHas(l, e[1]))
+            IN Res(<<[i \in 1..Len(m) |-> <<m[i][1], <<TblGet(l, m[i][1]), m[i][2]>>>>]>>, <<l, r>>)
+      [] op = "join_fused_rhs" ->    \* port 1 a multiset, port 2 reduced per key
+            LET l == s[1] \o ins[1]
+                r == KeyedRun(FALSE, nd.fn, s[2], ins[2])
+                m == SelectSeq(l, LAMBDA e : TblHas(r, e[1]))
+            IN Res(<<[i \in 1..Len(m) |-> <<m[i][1], <<m[i][2], TblGet(r, m[i][1])>>>>]>>, <<l, r>>)
+      [] op = "join_multiset_half" ->   \* ins[1] = build, ins[2] = probe; output in probe order
+            LET b == s[1] \o ins[1]
+                pr == s[2] \o ins[2]
+            IN Res(<<Flat([i \in 1..Len(pr) |->
+                            LET m == SelectSeq(b, LAMBDA e : e[1] = pr[i][1])
+                            IN [j \in 1..Len(m) |-> <<pr[i][1], <<pr[i][2], m[j][2]>>>>]])>>, <<b, pr>>)
+      [] op = "lattice_fold_batch" ->   \* ins[1] = input (Max lattice), ins[2] = signal; no tick reset
+            LET a == FoldL(LAMBDA acc, x : Max2(acc, x), s, ins[1])
+            IN IF ins[2] # <<>> THEN Res(<<<<a>>>>, 0) ELSE Res(<<<<>>>>, a)
+      [] op \in {"partition", "demux_enum"} ->   \* fn: predicate; port 1 = true, port 2 = false
             Res(<<SelectSeq(ins[1], LAMBDA x : PredFn(nd.fn, x)),
                   SelectSeq(ins[1], LAMBDA x : ~PredFn(nd.fn, x))>>, s)
       [] op = "unzip" ->
@@ -333,6 +395,12 @@ Step(nd, ins, s, tick, ext, cells) ==
       [] op = "ref_filter" ->
             ResC(<<SelectSeq(ins[1], LAMBDA x : RefPredFn(nd.fn, x, cells[1]))>>, s, cells)
       [] op = "iter_ref" -> ResC(<<cells[1]>>, s, cells)
+      \* cartesian-product bimorphism over set unions: ins = the deltas of this tick, cells = the
+      \* settled accumulated sets <<sorted seq>>; one merged set per tick, nothing without a delta
+      [] op = "lattice_bimorphism" ->
+            LET L == Range(cells[1][1])  R == Range(cells[2][1])
+                S == {<<a, b>> : a \in Range(ins[1]), b \in R} \cup {<<a, b>> : a \in L, b \in Range(ins[2])}
+            IN ResC(<<IF ins[1] = <<>> /\ ins[2] = <<>> THEN <<>> ELSE SortSeq(SetToSeqP(S), LAMBDA x, y : ValLt("p", x, y))>>, s, cells)
 
 IsDefer(nd) == nd.op \in {"defer_tick", "defer_tick_lazy"}
 NoDelay(nd) == ~IsDefer(nd)
